@@ -371,7 +371,7 @@ def run(ctx):
     n_sites = 0
     for cls in [c for c in tree.body if isinstance(c, ast.ClassDef) and c.name.startswith("EvalFuncVar")]:
         for fn in [f for f in cls.body if isinstance(f, (ast.FunctionDef, ast.AsyncFunctionDef)) and f.name == "call"]:
-            params = [a.arg for a in fn.args.args]
+            params = [a.arg for a in fn.args.posonlyargs + fn.args.args]
             for site in [n for n in ast.walk(fn) if isinstance(n, ast.Call) and norm(n.func) == "self.func.call"]:
                 n_sites += 1
                 first = norm(site.args[0]) if site.args else None
